@@ -675,7 +675,51 @@ func (w *nilWalker) need(e ast.Expr, f *facts, kind string, pos token.Pos) {
 
 func (w *nilWalker) needLen(e ast.Expr, k int, f *facts, pos token.Pos) {
 	p := w.path(e)
-	if p == "" || strings.Contains(p, "[") {
+	if p == "" {
+		// a constant index applied directly to a call result or literal: no length test can sit
+		// in between, so only a library guarantee can cover it
+		switch x := e.(type) {
+		case *ast.ParenExpr:
+			w.needLen(x.X, k, f, pos)
+		case *ast.CompositeLit:
+			if k >= len(x.Elts) && w.record {
+				key := w.d.name + "#len:literal"
+				w.e.reports[key] = &derefReport{fn: w.d.name, path: "len:literal", pos: pos, kind: "constant index", ok: false,
+					msg: fmt.Sprintf("%s[%d] indexes a literal of %d elements", types.ExprString(e), k, len(x.Elts))}
+			}
+		case *ast.CallExpr:
+			fn, _ := typeutil.Callee(w.d.pkg.TypesInfo, x).(*types.Func)
+			guaranteed := 0
+			name := types.ExprString(x.Fun)
+			if fn != nil {
+				name = fn.FullName()
+				switch name {
+				case "strings.Split", "strings.SplitN", "strings.SplitAfter", "strings.SplitAfterN":
+					if len(x.Args) >= 2 {
+						if v, ok := constOf(w.d.pkg, x.Args[1]); ok && v.isStr() && v.str() != "" {
+							guaranteed = 1
+						}
+					}
+				}
+			}
+			if !w.record {
+				return
+			}
+			key := w.d.name + "#len:" + name + "()"
+			r := w.e.reports[key]
+			if r == nil {
+				r = &derefReport{fn: w.d.name, path: "len:" + name + "()", pos: pos, kind: "constant index", ok: true}
+				w.e.reports[key] = r
+			}
+			if k >= guaranteed && r.ok {
+				r.ok = false
+				r.pos = pos
+				r.msg = fmt.Sprintf("%s[%d]: the result of %s is indexed with a constant although it is only guaranteed to hold %d element(s); input without the expected separator panics with index out of range", types.ExprString(e), k, name, guaranteed)
+			}
+		}
+		return
+	}
+	if strings.Contains(p, "[") {
 		return
 	}
 	// library fact: strings.Split with a non-empty separator returns at least one element
